@@ -19,6 +19,9 @@ type filterVal struct {
 	quoted    bool
 	isRef     bool
 	pat       string
+	// the value holds a line break (block scalar, "\n" escape): every diagnostic of the validator
+	// must be reported by the rule (the value is not trimmed), the column is not compared
+	loose bool
 }
 
 const plainAlpha = "az0/.*+?~^[]-\\!"
@@ -89,7 +92,7 @@ func lintCheck(r *hx.Rng, n int) (fails []failure, colCases []string, count int)
 				txt, q, p := scalar()
 				prefix := "    " + key.name + ": "
 				put(prefix + txt)
-				vals = append(vals, filterVal{line, len(prefix) + 1, q, key.isRef, p})
+				vals = append(vals, filterVal{line, len(prefix) + 1, q, key.isRef, p, false})
 			} else {
 				put("    " + key.name + ":")
 				for i := 0; i < 1+r.Intn(3); i++ {
@@ -98,9 +101,33 @@ func lintCheck(r *hx.Rng, n int) (fails []failure, colCases []string, count int)
 						// after it are validated all the same
 						put("      - " + []string{"''", "\"\""}[r.Intn(2)])
 					}
+					if r.Chance(1, 6) {
+						// a value with line breaks: literal / folded block scalar (keep, clip) or an escape
+						base := lintPattern(r, 0)
+						switch r.Intn(4) {
+						case 0:
+							put("      - |")
+							put("        " + base)
+							vals = append(vals, filterVal{line - 1, 9, false, key.isRef, base + "\n", true})
+						case 1:
+							put("      - >")
+							put("        " + base)
+							vals = append(vals, filterVal{line - 1, 9, false, key.isRef, base + "\n", true})
+						case 2:
+							put("      - |+")
+							put("        " + base)
+							put("")
+							vals = append(vals, filterVal{line - 2, 9, false, key.isRef, base + "\n\n", true})
+						default:
+							b2 := strings.ReplaceAll(base, "\\", "")
+							put("      - \"" + b2 + "\\n\"")
+							vals = append(vals, filterVal{line, 9, true, key.isRef, b2 + "\n", true})
+						}
+						continue
+					}
 					txt, q, p := scalar()
 					put("      - " + txt)
-					vals = append(vals, filterVal{line, 9, q, key.isRef, p})
+					vals = append(vals, filterVal{line, 9, q, key.isRef, p, false})
 					if r.Chance(1, 5) {
 						// the same entry once more (as it is, or in the other letter case): validated again
 						t2, p2 := txt, p
@@ -108,7 +135,7 @@ func lintCheck(r *hx.Rng, n int) (fails []failure, colCases []string, count int)
 							t2, p2 = strings.ToUpper(txt), strings.ToUpper(p)
 						}
 						put("      - " + t2)
-						vals = append(vals, filterVal{line, 9, q, key.isRef, p2})
+						vals = append(vals, filterVal{line, 9, q, key.isRef, p2, false})
 					}
 				}
 			}
@@ -157,11 +184,20 @@ func lintCheck(r *hx.Rng, n int) (fails []failure, colCases []string, count int)
 				found := false
 				try := func(exact bool) {
 					for p, ms := range got {
-						if p.line != v.line || (exact && p.col != want) {
+						if v.loose {
+							if exact || p.line != v.line {
+								continue
+							}
+						} else if p.line != v.line || (exact && p.col != want) {
 							continue
 						}
 						for i, m := range ms {
 							if m != "" && strings.HasPrefix(m, ge.Message) {
+								if v.loose {
+									ms[i] = ""
+									found = true
+									return
+								}
 								// observed position of this diagnostic
 								colCases = append(colCases, fmt.Sprintf("((%d%%N, %s, %d%%N), [[%d]]%%N)", v.col, hx.CoqBool(v.quoted), ge.Column, p.col))
 								if p.col != want {
